@@ -149,6 +149,49 @@ def run_property(pid, tier, seed):
         lib, model, diffs, compared = {}, {}, [], 0
     by_id = {c.id: c for c in cases}
 
+    # ---- 4b. the same scenarios under other schedules / feature sets (C18) -----------------
+    schedule_failures = []
+    digests = {}
+    if cfg.get("configs"):
+        import hashlib
+
+        def canon(res):
+            h = hashlib.sha256()
+            for cid in sorted(res):
+                h.update(cid.encode())
+                for part in ("obs", "in"):
+                    for name, v in res[cid].get(part, {}).items():
+                        h.update(("%s %s %s\n" % (part, name, v)).encode())
+            return h.hexdigest()
+        digests["reference (parallel, default threads)"] = canon(lib)
+        configs = cfg["configs"] if tier != "quick" else cfg["configs"][:cfg.get("configs_quick", len(cfg["configs"]))]
+        for (label, par, threads) in configs:
+            try:
+                if not par:
+                    build.build_harness(parallel=False)
+                e2 = Engine(pid + "-cfg", parallel=par, threads=threads)
+                other = e2.run_harness(cases)
+                e2.cleanup()
+            except build.BuildError as e:
+                violations.append(("engine", {"property": pid, "what": "harness (%s) failed" % label, "detail": str(e)[-3000:]}, False))
+                continue
+            digests[label] = canon(other)
+            for c in cases:
+                a, b = lib.get(c.id, {}), other.get(c.id, {})
+                for part in ("obs", "in"):
+                    names = list(a.get(part, {}).keys()) + [k for k in b.get(part, {}) if k not in a.get(part, {})]
+                    for name in names:
+                        if a.get(part, {}).get(name) != b.get(part, {}).get(name):
+                            schedule_failures.append({"case": c.id, "kind": c.kind, "config": label, "name": name,
+                                                      "reference": a.get(part, {}).get(name), "other": b.get(part, {}).get(name),
+                                                      "what": "%s: output '%s' differs between the reference run (parallel feature, default thread count) and %s"
+                                                              % (c.meta.get("scheme", c.kind), name, label)})
+                            break
+                    else:
+                        continue
+                    break
+    notes["digests"] = digests
+
     # ---- 5. oracle on the implementation (search for a concrete failing input) ----
     failures = []
     for c in cases:
@@ -166,6 +209,7 @@ def run_property(pid, tier, seed):
             failures.append({"case": c.id, "kind": c.kind,
                              "what": "%s %s: implementation accepts where the proved model answers %s (%s)"
                                      % (c.meta.get("scheme", c.kind), d["name"], d["model"], " ".join(c.fields.get(d["name"], []))[:80])})
+    failures.extend(schedule_failures)
     reported_cases = set()
     for f in failures:
         k = matches_known(pid, f, known)
@@ -179,6 +223,7 @@ def run_property(pid, tier, seed):
         reported_cases.add(f["case"])
         c = by_id[f["case"]]
         violations.append(("input", {"property": pid, "what": f["what"], "case": c.to_json(),
+                                     "schedule": {k: f[k] for k in ("config", "name", "reference", "other") if k in f},
                                      "lib": lib.get(c.id), "model": model.get(c.id),
                                      "diffs": [d for d in diffs if d["case"] == c.id]}, True))
     # correspondences that broke without an oracle failure on that case
@@ -221,6 +266,7 @@ def run_property(pid, tier, seed):
             "correspondence_diffs": len(diffs),
             "oracle_failures": len(failures),
             "known_findings_hit": known_lines,
+            "schedule_digests": notes.get("digests", {}),
             "timing": {"harness_s": round(eng.harness_s, 2), "runner_s": round(eng.runner_s, 2), **{k: round(v, 2) for k, v in notes.get("build", {}).items()}},
         },
         "assumptions": TRUSTED_BASE,
